@@ -26,6 +26,8 @@ Dist(kind, nilconf, a, b) ==
 
 Confs == << <<"full", TRUE, Zero, Zero>>, <<"full", FALSE, Q(-7, 2), Zero>>, <<"full", FALSE, QI(3), Zero>>,
             <<"uniform", TRUE, Zero, Zero>>, <<"uniform", FALSE, QI(-2), QI(5)>>, <<"uniform", FALSE, Q(1, 2), Q(3, 4)>>, <<"uniform", FALSE, QI(-1000), QI(-999)>>,
+            <<"uniform", FALSE, Zero, One>>, <<"uniform", FALSE, MinusOne, Zero>>,          \* a bound of exactly 0 is a configured value, not "unset"
+            <<"normal", FALSE, Zero, Two>>, <<"full", FALSE, Zero, Zero>>,
             <<"normal", TRUE, Zero, Zero>>, <<"normal", FALSE, QI(3), Half>>, <<"normal", FALSE, QI(-10), QI(4)>>,
             <<"he-uniform", FALSE, QI(1), Zero>>, <<"he-uniform", FALSE, QI(6), Zero>>, <<"he-uniform", FALSE, QI(100), Zero>>,
             <<"he-normal", FALSE, QI(1), Zero>>, <<"he-normal", FALSE, QI(8), Zero>>, <<"he-normal", FALSE, QI(50), Zero>>,
